@@ -92,13 +92,16 @@ func blockIDFor(n int) tmproto.BlockID {
 }
 
 func checkC20(c *Ctx) {
-	c.rule = "in-process mode: PRNG request sequences over a small (height, round, step) cube mixing proposals, prevotes and precommits with increasing, repeated, regressing, conflicting-block-id and timestamp-only variants, the signer being reloaded from its key and state files with probability 1/2 between requests; offline checker over the log of released signatures + independent reads of the state file at every release. Crash mode: a child process signs an increasing stream and reports each release; the parent SIGKILLs it after a PRNG-chosen number of observed releases, then checks the state file against the release log and re-requests the last message. distinct = distinct request sequences with at least one accepted advance, one replay and one refused conflict"
+	c.rule = "in-process mode: PRNG request sequences over a small (height, round, step) cube mixing proposals, prevotes and precommits with increasing, repeated, regressing, conflicting-block-id and timestamp-only variants, the signer being reloaded from its key and state files with probability 1/2 between requests; offline checker over the log of released signatures + independent reads of the state file at every release. Crash mode: a child process signs an increasing stream and reports each release; the parent SIGKILLs it after a PRNG-chosen number of observed releases, then checks the state file against the release log and re-requests the last message (exact, timestamp-only variant, conflicting). Node-path crash mode: the same with a child that obtains its signer from node.NewRigoNode on an initialised home directory (the object the consensus engine would sign with), killed and started again on the same directory; the second incarnation is probed with the exact replay, a timestamp-only variant, a conflicting vote and a lower height. distinct = distinct request sequences with at least one accepted advance, one replay and one refused conflict"
 	c.assumptions = []string{"process death only (no power loss): rename atomicity on a live kernel"}
 	n := c.N(400, 60000)
 	c.Parallel(n, 0, func(i int) { c.signerSequence(i, c.Rng("c20", i)) })
 	kills := c.N(40, 2000)
 	c.Parallel(kills, 8, func(i int) { c.signerKill(100000+i, c.Rng("c20kill", i)) })
-	c.Require("accepted-advances", "same-message-replays", "timestamp-only-replays", "refused-conflicts", "refused-regressions", "reloads", "kills")
+	// the same through the process-start path of the node: the signer is the one NewRigoNode hands to the consensus engine
+	nodeKills := c.N(4, 120)
+	c.Parallel(nodeKills, 4, func(i int) { c.signerNodeKill(200000+i, c.Rng("c20nodekill", i)) })
+	c.Require("accepted-advances", "same-message-replays", "timestamp-only-replays", "refused-conflicts", "refused-regressions", "reloads", "kills", "node-path-kills")
 }
 
 func (c *Ctx) signerSequence(i int, rng *rand.Rand) {
@@ -141,6 +144,9 @@ func (c *Ctx) signerSequence(i int, rng *rand.Rand) {
 		step := int8(1 + rng.Intn(3))
 		bid := 1 + rng.Intn(2)
 		ts := baseT.Add(time.Duration(q) * time.Second)
+		if rng.Intn(4) != 0 {
+			ts = ts.Add(time.Duration(rng.Intn(1_000_000_000))) // real clocks have sub-millisecond parts
+		}
 		mode := rng.Intn(10)
 		switch {
 		case last != nil && mode < 2: // exact replay
@@ -183,7 +189,7 @@ func (c *Ctx) signerSequence(i int, rng *rand.Rand) {
 			}
 			h, r = curH, curR
 		}
-		var signBytes, sig []byte
+		var signBytes, sig, retBytes []byte
 		var err error
 		var outTS time.Time
 		var req string
@@ -217,6 +223,7 @@ func (c *Ctx) signerSequence(i int, rng *rand.Rand) {
 			signBytes = tmtypes.ProposalSignBytes(chainID, p)
 			err = call(func() error { return pv.SignProposal(chainID, p) })
 			sig, outTS = p.Signature, p.Timestamp
+			retBytes = tmtypes.ProposalSignBytes(chainID, p)
 		} else {
 			typ := tmproto.PrevoteType
 			if step == 3 {
@@ -227,6 +234,7 @@ func (c *Ctx) signerSequence(i int, rng *rand.Rand) {
 			signBytes = tmtypes.VoteSignBytes(chainID, v)
 			err = call(func() error { return pv.SignVote(chainID, v) })
 			sig, outTS = v.Signature, v.Timestamp
+			retBytes = tmtypes.VoteSignBytes(chainID, v)
 		}
 		if fault {
 			_ = os.Rename(away, dir)
@@ -266,6 +274,10 @@ func (c *Ctx) signerSequence(i int, rng *rand.Rand) {
 			continue
 		}
 		// ---- a signature was released: check it against the log --------------------------------
+		if !pub.VerifySignature(retBytes, sig) {
+			bad("returned-message-does-not-verify", fmt.Sprintf("the signature handed back for %s does not verify for the message as it was handed back (timestamp %v)", req, outTS))
+			return
+		}
 		if last != nil && hrsLess(cur, last) {
 			bad("signed-lower-hrs", fmt.Sprintf("released a signature for %s after having signed %d/%d/%d", req, last.H, last.R, last.S))
 			return
@@ -340,7 +352,7 @@ func signerChildMain(args []string) {
 			if step == 3 {
 				typ = tmproto.PrecommitType
 			}
-			v := &tmproto.Vote{Type: typ, Height: h, Round: 0, BlockID: blockIDFor(1), Timestamp: time.Unix(1700000000+h, 0).UTC(), ValidatorAddress: pub.Address()}
+			v := &tmproto.Vote{Type: typ, Height: h, Round: 0, BlockID: blockIDFor(1), Timestamp: time.Unix(1700000000+h, 123456789).UTC(), ValidatorAddress: pub.Address()}
 			sb := tmtypes.VoteSignBytes("c20-chain", v)
 			if err := pv.SignVote("c20-chain", v); err != nil {
 				fmt.Fprintf(w, "ERR %v\n", err)
@@ -421,13 +433,23 @@ func (c *Ctx) signerKill(i int, rng *rand.Rand) {
 	if onDisk.S == 3 {
 		typ = tmproto.PrecommitType
 	}
-	v := &tmproto.Vote{Type: typ, Height: onDisk.H, Round: 0, BlockID: blockIDFor(1), Timestamp: time.Unix(1700000000+onDisk.H, 0).UTC(), ValidatorAddress: prv.PubKey().Address()}
+	v := &tmproto.Vote{Type: typ, Height: onDisk.H, Round: 0, BlockID: blockIDFor(1), Timestamp: time.Unix(1700000000+onDisk.H, 123456789).UTC(), ValidatorAddress: prv.PubKey().Address()}
 	if err := pv2.SignVote("c20-chain", v); err != nil {
 		c.Violation(i, "signer:replay-refused-after-kill", err.Error(), nil)
 		return
 	}
 	if !bytes.Equal(v.Signature, onDisk.Sig) {
 		c.Violation(i, "signer:replay-resigned-after-kill", "re-requesting the last signed message after the kill produced a new signature", nil)
+		return
+	}
+	// a timestamp-only variant gets the original signature and the original timestamp back
+	v3 := &tmproto.Vote{Type: typ, Height: onDisk.H, Round: 0, BlockID: blockIDFor(1), Timestamp: v.Timestamp.Add(1777 * time.Nanosecond), ValidatorAddress: prv.PubKey().Address()}
+	if err := pv2.SignVote("c20-chain", v3); err != nil {
+		c.Violation(i, "signer:timestamp-variant-refused-after-kill", err.Error(), nil)
+		return
+	}
+	if !bytes.Equal(v3.Signature, onDisk.Sig) || !v3.Timestamp.Equal(v.Timestamp) || !prv.PubKey().VerifySignature(tmtypes.VoteSignBytes("c20-chain", v3), v3.Signature) {
+		c.Violation(i, "signer:timestamp-variant-resigned-after-kill", fmt.Sprintf("timestamp-only variant after the kill: signature/timestamp differ from the original or do not verify (ts %v vs %v)", v3.Timestamp, v.Timestamp), nil)
 		return
 	}
 	// and a conflicting message at the same HRS must be refused
